@@ -9,7 +9,7 @@ import torch
 
 from vlib import policies
 from vlib.sweep import sig_of
-from vlib.taps import PolicyTap, logit_noise
+from vlib.taps import Float64, PolicyTap, logit_noise, td_to64
 
 
 @contextlib.contextmanager
@@ -99,6 +99,25 @@ def decode(pol, env, td_in, tap=False):
         return pol(td, env, phase="test", return_actions=True, **DECODE_KW), None
 
 
+# policy kinds whose float64 decode was verified on the unchanged tree (see c11impl.F64_KINDS for the exclusions)
+F64_KINDS = {"am", "am_instnorm", "am_layernorm", "ham", "symnco"}
+
+
+def float64_agrees(pol, env, td_in, idx, pos, b):
+    """solo decode of instance b and the batched decode of td_in[idx], both in double precision: True iff actions are equal
+    and log-likelihood / reward agree to 1e-7 (then a float32 difference was conditioning, not batch dependence)."""
+    with torch.inference_mode(), Float64(pol):
+        o1 = pol(td_to64(env.reset(td_in[b : b + 1].clone())), env, phase="test", return_actions=True, **DECODE_KW)
+        oB = pol(td_to64(env.reset(torch.cat([td_in[i : i + 1] for i in idx], 0).clone())), env, phase="test", return_actions=True, **DECODE_KW)
+    a1, aB = o1["actions"][0], oB["actions"][pos]
+    T = a1.shape[0]
+    if aB.shape[0] < T or not torch.equal(aB[:T], a1):
+        return False
+    l1, lB = o1["log_likelihood"][0].reshape(-1), oB["log_likelihood"][pos].reshape(-1)
+    r1, rB = o1["reward"][0].reshape(-1), oB["reward"][pos].reshape(-1)
+    return l1.shape == lB.shape and bool(((l1 - lB).abs() <= 1e-7 * (1 + l1.abs())).all()) and bool(((r1 - rB).abs() <= 1e-7 * (1 + r1.abs())).all())
+
+
 def min_margin(rec, row=0):
     """smallest top-2 gap of the feasible logits along a solo greedy decode (float-flip guard)."""
     mm = float("inf")
@@ -155,7 +174,7 @@ def case(ctx, case):
         if not good:
             return
 
-        def compare(context, out, pos, b, B):
+        def compare(context, out, pos, b, B, idx=None):
             ref = refs[b]
             ctx.evaluation()
             ctx.count("c14_comparisons")
@@ -165,9 +184,26 @@ def case(ctx, case):
             same = a.shape[0] >= T and torch.equal(a[:T], ref["a"]) and (a.shape[0] == T or bool((a[T:] == a[T - 1]).all() | (a[T:] == 0).all()))
             r = out["reward"][pos].reshape(-1)  # [1] or [paths] (MDAM returns one reward per decoder path)
             ll = out["log_likelihood"][pos].reshape(-1)
+            def conditioning():
+                # beyond the float32 allowance: decide in float64 (unscaled CVRPTW: intermediates ~1e4, float32 log-probs
+                # of correct code differ by up to ~0.2 between batch layouts)
+                if idx is None or kind not in F64_KINDS:
+                    return False
+                ctx.count("c14_float64_escalations")
+                try:
+                    ok = float64_agrees(pol, env, td_in, idx, pos, b)
+                except Exception:
+                    return False
+                if ok:
+                    ctx.ambiguous += 1
+                    ctx.count("c14_float32_conditioning_cases")
+                return ok
+
             if not same:
                 if ref["margin"] < 1e-5 + ref["noise"]:
                     ctx.ambiguous += 1  # near-tie in the solo decode: a flip under float noise is allowed by the property
+                    return
+                if conditioning():
                     return
                 ctx.violation(dict(sig, q="actions", context=context), f"[{context}] greedy actions of the instance at position {pos} of a batch of {B} differ from its solo decode (solo top-2 margin {ref['margin']:.3g})",
                               dict(solo=ref["a"].tolist(), batched=a.tolist(), B=B, pos=pos, n=n))
@@ -182,6 +218,8 @@ def case(ctx, case):
                 if ref["margin"] < 1e-5:
                     ctx.ambiguous += 1
                     return
+                if conditioning():
+                    return
                 ctx.violation(dict(sig, q="loglik", context=context), f"[{context}] log-likelihood {ll.tolist()} != solo {ref['ll'].tolist()} with identical actions", dict(B=B, pos=pos, n=n))
                 return
             ctx.nontrivial_case(dict(p=kind, e=name, a=ref["a"].tolist(), c=context, B=B, pos=pos))
@@ -195,7 +233,7 @@ def case(ctx, case):
                 ctx.violation(dict(sig, q="batch_raises", context=context, exc=type(e).__name__), f"[{context}] batched decode raised {type(e).__name__}: {str(e)[:200]}", dict(B=len(idx)))
                 return
             for pos, b in enumerate(idx):
-                compare(context, out, pos, b, len(idx))
+                compare(context, out, pos, b, len(idx), idx)
 
         run("pool", good)
         if len(good) >= 2:
